@@ -372,6 +372,12 @@ class Check:
             if k and t["line"] not in printed:
                 print("KNOWN-FINDING: property=%s %s" % (self.pid, k.get("what")))
                 printed.add(t["line"])
+        # every listed finding gets its line; one whose witness this run's inputs (tier, seed) did not reach says so
+        for k in kf:
+            if k["key"] not in printed:
+                print("KNOWN-FINDING: property=%s %s [listed; not reached by the inputs of this run (tier=%s seed=%d)]" % (
+                    self.pid, k.get("what", ""), self.tier, self.seed))
+                printed.add(k["key"])
         broken = bool(self.proof_failures or tie_unexplained)
         violations = 0
         replay = None
